@@ -31,7 +31,8 @@ type cfg struct {
 	Delay     int64   `json:"delay"`
 	MaxDelay  int64   `json:"max_delay"`
 	Factor    float32 `json:"factor"`
-	Min, Max  int64   `json:"min_max"`
+	Min       int64   `json:"min"`
+	Max       int64   `json:"max"`
 	FuncVal   int64   `json:"func_val"`
 	Jitter    int64   `json:"jitter"`
 	JitterF   float32 `json:"jitter_factor"`
